@@ -50,6 +50,8 @@ def run(chk):
     chk.rule("C09.O7", "builder: forms/modifiers instantiated with their arguments in order; ranges chained in listing order", 5)
     chk.rule("C09.O8", "documented modifiers and pymath functions are exactly the registered ones", 3)
     chk.rule("C09.O9", "key normalisation: optionxform == dictionary transform; '=' and ':' both delimit (parser options untouched)", 6)
+    chk.rule("C09.O10", "pymath.NAME forwards its arguments, in order, to the math function of the same name", 30)
+    chk.attempt("O10", lambda: pymath_forwarding(chk, P))
     chk.attempt("O1", lambda: modifiers(chk, P))
     chk.attempt("O2", lambda: trans_value(chk, P))
     chk.attempt("O3", lambda: custom_forms(chk, P))
@@ -414,3 +416,65 @@ def delimiters(chk, P):
     chk.ob("C09.O9", "'=' and ':' are interchangeable delimiters (parser options untouched; same parsed state)", ok,
            site=P.cls(CP, "_RawConfigParser").lookup("__init__").site(), found=(a[1], b[1]) if ok is False else None, expect="same state",
            key="C09.O9|delimiters")
+
+
+# ---------------------------------------------------------------------------
+# accepted deviations of a pymath wrapper from 'return math.NAME(<parameters in order>)', each confirmed by reading
+PYMATH_EQUIVALENTS = {
+    # name: (callee accepted, argument pattern) - pattern items: parameter name, ("int", parameter), ("const", value), "*"
+    "log2": [("math.log2", ["x"]), ("math.log", ["x", ("const", 2)])],      # fallback for interpreters without math.log2
+    "fsum": [("math.fsum", ["args"])],                                      # documented: varargs collected into one iterable
+    "log": [("math.log", ["*args"])],
+}
+
+
+def pymath_forwarding(chk, P):
+    m = P.module("atsim.potentials.config._pymath")
+    aliases = {}
+    defs = []
+
+    def collect(body):
+        for st in body:
+            if isinstance(st, ast.FunctionDef):
+                defs.append(st)
+            elif isinstance(st, ast.If):
+                collect(st.body)
+                collect(st.orelse)
+            elif isinstance(st, ast.Assign) and len(st.targets) == 1 and isinstance(st.targets[0], ast.Name):
+                aliases.setdefault(st.targets[0].id, []).append(ast.unparse(st.value))
+    collect(m.tree.body)
+    for fd in defs:
+        if fd.name.startswith("_"):
+            continue
+        site = "%s:%d %s" % (m.relpath, fd.lineno, fd.name)
+        params = [a.arg for a in fd.args.args]
+        if fd.args.vararg is not None:
+            params.append("*" + fd.args.vararg.arg)
+        body = [st for st in fd.body if not (isinstance(st, ast.Expr) and isinstance(st.value, ast.Constant))]
+        ok = len(body) == 1 and isinstance(body[0], ast.Return) and isinstance(body[0].value, ast.Call) and not body[0].value.keywords
+        found = ast.unparse(body[0]) if body else "empty"
+        if ok:
+            call = body[0].value
+            callee = ast.unparse(call.func)
+            callees = [callee] + aliases.get(callee, [])      # a module-level alias (math.gcd / fractions.gcd)
+            pattern = []
+            for a in call.args:
+                if isinstance(a, ast.Name):
+                    pattern.append(a.id)
+                elif isinstance(a, ast.Starred) and isinstance(a.value, ast.Name):
+                    pattern.append("*" + a.value.id)
+                elif isinstance(a, ast.Call) and isinstance(a.func, ast.Name) and a.func.id == "int" and len(a.args) == 1 \
+                        and isinstance(a.args[0], ast.Name):
+                    pattern.append(a.args[0].id)        # int(x): the documented conversion for integer-only functions
+                elif isinstance(a, ast.Constant):
+                    pattern.append(("const", a.value))
+                else:
+                    pattern.append(("?", ast.unparse(a)))
+            std = any(c.split(".")[-1] == fd.name and c.split(".")[0] in ("math", "fractions") for c in callees) and pattern == params
+            alt = any(callee == c and pattern == [x if not (isinstance(x, str) and x == "args") else "args" for x in pat]
+                      for c, pat in PYMATH_EQUIVALENTS.get(fd.name, []))
+            if fd.name == "fsum":
+                alt = callee == "math.fsum" and pattern == [params[0].lstrip("*")]
+            ok = std or alt
+        chk.ob("C09.O10", "pymath.%s(%s) = math.%s of the same arguments in the same order" % (fd.name, ", ".join(params), fd.name), ok,
+               site=site, found=found, expect="return math.%s(%s)" % (fd.name, ", ".join(params)), key="C09.O10|%s" % fd.name)
